@@ -184,8 +184,10 @@ class C16(Prop):
             "sequence (state dump with call counters, common info, channel info of its channels, a stream of all its channels) "
             "or a restart sequence with deterministic channels — and the lists are interleaved op by op or run one after the "
             "other in a random order; about a third of the instances are constructed LATE (op `n`, after ops of other instances: a "
-            "device created while others are configured / streaming / restarted); targeted: restarts after batches of 300..10001 rounds that cross the periods of every "
-            "default generator (triangle wave restarted while falling), user-defined functions of the call index (F19); every "
+            "device created while others are configured / streaming / restarted); targeted: a START request to one instance while another one's "
+            "stream thread runs (it stays silent), restarts after batches of 300..10001 rounds that cross the periods of every "
+            "default generator (triangle wave restarted while falling), a restart after exactly 65536 samplings of a channel (also 65535 / "
+            "131072 in the thorough tier), user-defined functions of the call index (F19); every "
             "token compared with the model of the instances over one heap; oracle: the observations of EVERY instance equal "
             "those of its own ops run alone, every default instance is defined like the default device of a fresh interpreter, and "
             "the deterministic channels begin their sequence (that of a fresh generator object) again after stop/start; "
@@ -204,8 +206,11 @@ class C16(Prop):
             defs = gen_defs(rng, kind)
             ops = gen_multi_history(rng, defs, rng.randrange(5, 45 if T else 30))
             yield L.line_of(defs, ops), TAGS[kind]
+        # (quick tier: the 65536-round restart history is judged by the oracle only — extra_checks — not run a second time here)
+        long_quick = set() if T else set(self.long_session_lines(False))
         for line in self.targeted(full=T):
-            yield line, "targeted"
+            if line not in long_quick:
+                yield line, "targeted"
 
     def targeted(self, full=True):
         en1 = hexs(L.req(6, [0, 1, 1]))
@@ -215,6 +220,15 @@ class C16(Prop):
         cmn = hexs(L.req(2, []))
         enall = hexs(L.req(6, [2, 0, 1]))
         out = []
+        # a START request sent to instance 0 ONLY, while instance 1 (alive, started as an interface, a channel enabled) never got one:
+        # 1's stream thread runs and 1 is read — it must stay silent; then a STOP request to 1 must not silence 0 (seeded C16-r5m1:
+        # one "stream started" event shared by every instance through a dataclass default evaluated once); default-default and
+        # custom-default
+        stop = hexs(L.req(5, [0]))
+        for defs in ("D,3,16,2+D,3,16,2", "C,3,0,2,5.1.0.1.0.0.61:10.1.0.2.0.0.62+D,1,8,3"):
+            out.append(f"dummy run {defs} " + ";".join(
+                ["0a", "1a", f"0w{en1}", "0R", "0r", f"1w{en1}", "1R", "1r", f"0w{start}", "0R", "0r", "0S", "0r", "1S", "1r", "1S", "1r",
+                 f"1w{stop}", "1R", "1r", "0S", "0r", "1S", "1r", "0d", "1d"]))
         # enable / divider / start / streaming on device 0, device 1 looked at afterwards
         out.append("dummy run D,3,16,2+D,3,16,2 " + ";".join(
             ["0a", "1a", f"0w{en1}", "0R", "0r", f"0w{div}", "0R", "0r", f"0w{start}", "0R", "0r", "0S", "0r", "1d", f"1w{cmn}", "1R", "1r",
@@ -256,6 +270,26 @@ class C16(Prop):
         # call-index functions — the restart of the falling triangle wave is in the interleaved pair above)
         w = [l for l, _ in L.wrap_lines()]
         out += w if full else [w[4]]
+        out += self.long_session_lines(full)
+        return out
+
+    @staticmethod
+    def long_session_lines(full=True):
+        """a restart after EXACTLY 65536 samplings of a channel (seeded C16-r5m2: a 16-bit call counter that reads 0 again makes
+        `reset()` skip the generators): 4 batches of 16384 rounds of an int16 counter channel (49153 bytes a frame) — 3 stream
+        steps + the batch `stop()` lets the started stream thread finish — then start and one more batch, which must begin 1, 2, 3 …;
+        thorough tier also: two channels (counter, triangle wave) in 8 batches of 8192 rounds with the stream stopped by request
+        before stop(), 131072 samplings (8 x 16384), and the neighbour 65535 (5 x 13107)"""
+        start, stop = L.START.hex(), L.STOP.hex()
+        one, two = "5.1.0.1.1.0.61", "5.1.0.1.1.0.61:5.1.0.2.1.0.62"
+        head = ["0a", f"0w{start}", "0R", "0r"]
+        tail = ["0z", "0r", "0a", "0S", "0r", "0d"]
+        out = [f"dummy run C,3,0,16384,{one} " + ";".join(head + ["0S", "0r"] * 3 + tail)]
+        if full:
+            byreq = [f"0w{stop}", "0R", "0r", "0z", "0d", "0a", "0d", f"0w{start}", "0R", "0r", "0S", "0r", "0d"]
+            out.append(f"dummy run C,3,0,8192,{two} " + ";".join(head + ["0S", "0r"] * 8 + byreq))
+            out.append(f"dummy run C,3,0,16384,{one} " + ";".join(head + ["0S", "0r"] * 7 + tail))
+            out.append(f"dummy run C,3,0,13107,{one} " + ";".join(head + ["0S", "0r"] * 4 + tail))
         return out
 
     def impl(self, line):
@@ -348,6 +382,9 @@ class C16(Prop):
         viol = []
         n = 0
         lines = list(self.targeted(full=tier == "thorough"))
+        if tier == "thorough":
+            # (every case line goes through the oracle in the thorough tier anyway: the long sessions are not run a third time)
+            lines = [l for l in lines if l not in set(self.long_session_lines(True))]
         for it in range(80 if tier == "thorough" else 24):
             defs = gen_defs(rng, ["DD", "DC", "CD", "CC", "DDD", "DCD"][it % 6])
             lines.append(L.line_of(defs, gen_multi_history(rng, defs, rng.randrange(5, 30))))
